@@ -492,6 +492,16 @@ func genCase(r interface{ Intn(int) int }) Case {
 				}
 			}
 			op.BadLen = r.Intn(25) == 0
+			if c.RO {
+				// a read-only endpoint checks its arguments first: exercise the
+				// empty request and the length mismatch there in particular
+				switch r.Intn(3) {
+				case 0:
+					op.Req = nil
+				case 1:
+					op.BadLen = len(op.Req) > 0
+				}
+			}
 			c.Ops = append(c.Ops, op)
 			outstanding = true
 		case k < 67:
